@@ -308,6 +308,72 @@ fn run_boundary_keys(cx: &mut CaseCx, case: &Value) {
   cx.outcome("boundary keys recover");
 }
 
+
+/// ONE sharing object used many times: `clone().share()` 300 times (each clone dropped - and wiped - at once),
+/// then the original itself; clones taken before and after, moved to another thread: every share has the same
+/// deterministic fields and shares from far-apart calls recover the message
+fn run_object_lifecycle(cx: &mut CaseCx, case: &Value) {
+  let t = case["t"].as_u64().unwrap() as u32;
+  let (m, r) = (prbytes(0x0B1, 40), prbytes(0x0B2, 24));
+  let c = Commune::new(t, m.clone(), r.clone(), None);
+  let early_clone = c.clone();
+  let mut shares: Vec<Share> = vec![];
+  for i in 0..300u32 {
+    getrandom::verif::set_group(i + 1);
+    match share_of(&c) {
+      Ok(s) => shares.push(s),
+      Err(e) => {
+        cx.viol("C16/share-failed", format!("share number {} from one sharing object failed: {}", i + 1, e), json!({"t": t}));
+        return;
+      }
+    }
+  }
+  let late_clone = c.clone();
+  drop(early_clone.clone()); // a clone of a clone, dropped
+  getrandom::verif::set_group(400);
+  let from_early = share_of(&early_clone);
+  getrandom::verif::set_group(401);
+  let from_late = std::thread::scope(|s| s.spawn(|| { getrandom::verif::reset(0xC16); share_of(&late_clone) }).join().unwrap_or(Err("thread".into())));
+  getrandom::verif::set_group(402);
+  let from_original = guard(|| c.share().map_err(|e| e.to_string())).unwrap_or_else(|p| Err(p));
+  for (who, s) in [("a clone taken before the 300 calls", from_early), ("a clone taken afterwards, used on another thread", from_late), ("the original object itself, last", from_original)] {
+    match s {
+      Ok(s) => shares.push(s),
+      Err(e) => {
+        cx.viol("C16/share-failed", format!("share() on {} failed: {}", who, e), json!({"t": t}));
+        return;
+      }
+    }
+  }
+  let parsed: Vec<rm::AdssShare> = shares.iter().filter_map(|s| rm::parse_adss(&s.to_bytes())).collect();
+  if parsed.len() != shares.len() {
+    cx.viol("C16/share-layout", "a share does not parse per the documented layout", json!({"t": t}));
+    return;
+  }
+  for (i, p) in parsed.iter().enumerate() {
+    cx.eval();
+    if p.threshold != parsed[0].threshold || p.c != parsed[0].c || p.d != parsed[0].d || p.j != parsed[0].j {
+      cx.viol("C16/not-deterministic/object-lifecycle", format!("share number {} of one sharing object (303 in all: 300 from clones dropped at once, then an early clone, a late clone on another thread, the original) differs from the first in its deterministic fields", i + 1), json!({"t": t, "share_number": i + 1}));
+      return;
+    }
+  }
+  for start in [0usize, 1, 150, 255, 256, 299, 300, 301] {
+    let sel: Vec<Share> = (0..t as usize).map(|k| shares[(start + k * 59) % shares.len()].clone()).collect();
+    cx.eval();
+    cx.count("states", 1);
+    cx.count("transitions", 1);
+    match rec(&sel) {
+      Ok(Ok(cm)) if cm.get_message() == m => cx.count("lifecycle_recovered", 1),
+      other => {
+        cx.viol("C16/recover-failed/object-lifecycle", format!("shares number {}.. (stride 59) of one sharing object do not recover the message: {:?}", start + 1, other.map(|r| r.map(|c| hexs(&c.get_message())))), json!({"t": t, "first": start + 1}));
+        return;
+      }
+    }
+  }
+  cx.nontrivial(t as u64);
+  cx.outcome(format!("t={}", t));
+}
+
 fn run_length_square(cx: &mut CaseCx, case: &Value) {
   let ml = case["ml"].as_u64().unwrap() as usize;
   let t = 2u32;
@@ -522,6 +588,13 @@ pub fn spec() -> PropSpec {
         },
         run: run_boundary_keys,
         min_counts: &[("boundary_keys_found", 30), ("boundary_recovered", 90)],
+      },
+      Check {
+        name: "object-lifecycle",
+        rule: "ONE Commune object (t in {1,2,3,5}): 300 x clone().share() (each clone dropped and wiped at once), then a clone taken before, a clone taken after (used on another thread) and the original itself: all 303 shares equal in every deterministic field, and t shares from far-apart calls (stride 59, around 150, 256, 300) recover the message",
+        gen: |_| [1u64, 2, 3, 5].iter().map(|t| json!({"t": t})).collect(),
+        run: run_object_lifecycle,
+        min_counts: &[("lifecycle_recovered", 30)],
       },
       Check {
         name: "length-square",
